@@ -26,11 +26,19 @@ func genStressB(r *Rng, tier string, p *Plan) {
 	p.N["workers"] = int64(PickOf(r, 1, 2))
 	p.N["max_batch"] = 50
 	p.N["batch_timeout_us"] = PickOf(r, int64(20_000), 50_000, 100_000)
+	// traces decided by the ordinary sampler before any stress begins; their
+	// late spans arrive at the owner while it is stressed (C04: recorded rate)
+	nPre := r.Range(0, 4)
+	p.N["pre"] = int64(nPre)
+	p.N["sampler_rate"] = int64(PickOf(r, 1, 2, 2, 3))
+	for t := 0; t < nPre; t++ {
+		p.Add(Op{K: "ev", At: int64(10_000 + 5_000*t), I: -1, J: int64(100 + t), N: int64(1000 + t), S: "json", T: "batch", M: 0})
+	}
 	// which nodes get stressed, and when
-	now := int64(200_000)
+	now := int64(900_000)
 	var stressed []int
 	for i := 0; i < nodes; i++ {
-		if r.Bool(0.6) || (i == nodes-1 && len(stressed) == 0) {
+		if nPre > 0 || r.Bool(0.6) || (i == nodes-1 && len(stressed) == 0) {
 			p.Add(Op{K: "stress", At: now, I: int64(i), N: 1})
 			stressed = append(stressed, i)
 		}
@@ -52,6 +60,10 @@ func genStressB(r *Rng, tier string, p *Plan) {
 			}
 			p.Add(Op{K: "ev", At: now, I: int64(entry), J: int64(t), N: int64(mk), S: PickOf(r, "json", "msgpack"), T: "batch", M: int64(r.Intn(4))})
 		}
+	}
+	for t := 0; t < nPre; t++ {
+		now += 20_000
+		p.Add(Op{K: "ev", At: now, I: -1, J: int64(100 + t), N: int64(2000 + t), S: "json", T: "batch", M: 1, B: true})
 	}
 	now += 600_000
 	if r.Bool(0.7) {
@@ -88,7 +100,7 @@ func runStressB(t *testing.T, p *Plan) *Outcome {
 			nodes: int(p.N["nodes"]), peerType: "file", workers: int(p.N["workers"]),
 			traceTimeout: 300 * time.Millisecond, sendDelay: 50 * time.Millisecond, sendTicker: 20 * time.Millisecond,
 			batchTimeout: us(p.N["batch_timeout_us"]), maxBatch: int(p.N["max_batch"]), stressMode: "never", inQueue: 1000,
-			sampler: &config.DeterministicSamplerConfig{SampleRate: 1}, samplerName: "DeterministicSampler", shuffleSeed: p.Seed,
+			sampler: &config.DeterministicSamplerConfig{SampleRate: int(p.Get("sampler_rate", 1))}, samplerName: "DeterministicSampler", shuffleSeed: p.Seed,
 		})
 		for _, n := range w.nodes {
 			if err := n.startNode(); err != nil {
@@ -109,6 +121,10 @@ func runStressB(t *testing.T, p *Plan) *Outcome {
 			op := op
 			if int(op.I) >= len(w.nodes) {
 				continue
+			}
+			if op.I < 0 {
+				// "at the owner": resolved now that the sharders are up
+				op.I = int64(addrIdx[w.nodes[0].shard.WhichShard(traceIDFor(p.Seed, int(op.J))).GetAddress()])
 			}
 			if op.At > last {
 				last = op.At
@@ -201,6 +217,38 @@ func runStressB(t *testing.T, p *Plan) *Outcome {
 				if r2, k2, _ := o.sr.GetSampleRate(se.ev.traceID); r2 != rate || k2 != keep {
 					out.Violate("C16", "nodes_disagree_on_stress_decision", "collect.StressRelief.GetSampleRate", "trace#%d: n%d says keep=%v rate=%d, n%d says keep=%v rate=%d", se.op.J, se.entry, keep, rate, o.idx, k2, r2)
 				}
+			}
+			if se.op.J >= 100 {
+				// a trace decided by the ordinary sampler before the stress began
+				if se.op.N >= 2000 {
+					// its late span, arriving at the stressed owner: follows the recorded decision and rate
+					var first *stressEv
+					for _, o := range evs {
+						if o.op.J == se.op.J && o.op.N < 2000 {
+							first = o
+						}
+					}
+					if first == nil || !se.entryStressed {
+						continue
+					}
+					fh := hnyBy[first.ev.marker]
+					out.Probe("late_span_under_stress_of_trace_decided_before")
+					if len(fh) == 0 {
+						if len(hs) != 0 {
+							out.Violate("C16", "late_span_does_not_follow_recorded_decision", "collect.InMemCollector.ProcessSpanImmediately", "%s: its trace was dropped by the sampler before the stress began, yet this span reached Honeycomb", desc)
+						}
+						continue
+					}
+					if len(hs) != 1 {
+						out.Violate("C16", "late_span_does_not_follow_recorded_decision", "collect.InMemCollector.ProcessSpanImmediately", "%s: its trace was kept before the stress began but this span reached Honeycomb %d times", desc, len(hs))
+						continue
+					}
+					traceRate := fh[0].rate / int64(first.ev.rate)
+					if want := int64(se.ev.rate) * traceRate; hs[0].rate != want {
+						out.Violate("C04", "late_span_under_stress_uses_wrong_rate", "collect.InMemCollector.ProcessSpanImmediately", "%s: its trace was decided at rate %d before the stress began; client rate %d, so %d expected, forwarded with %d (stress rate is %d)", desc, traceRate, se.ev.rate, want, hs[0].rate, rate)
+					}
+				}
+				continue
 			}
 			if se.entryStressed && traceFirstSeenStressed(evs, se) {
 				decided[fmt.Sprintf("%d/%s", se.entry, se.ev.traceID)] = keep
